@@ -232,6 +232,9 @@ func mkBlock(sc *Scenario) *types.Block {
 	for _, x := range sc.Txs {
 		tx := &types.Transaction{Source: x.Source, Target: x.Target, Type: x.Type, Nonce: x.Nonce, RequestId: x.Req,
 			ExtraData: x.Extra, Data: x.Data, Hash: common.BytesToHash(unhex(x.Hash))}
+		if x.Type == types.TransactionTypeMinerRefund {
+			tx.Sign = common.BytesToSign(make([]byte, 65)) // the executor only tests Sign != nil
+		}
 		b.Transactions = append(b.Transactions, tx)
 	}
 	return b
@@ -242,6 +245,7 @@ type outcome struct {
 	evicted  []common.Hash
 	receipts []*types.Receipt
 	st       *account.AccountDB
+	txs      []*types.Transaction
 }
 
 func situationOf(sc *Scenario) string {
@@ -258,8 +262,8 @@ func execOnce(sc *Scenario, root common.Hash, t account.AccountDatabase) outcome
 		panic(err)
 	}
 	blk := mkBlock(sc)
-	r, ev, _, rc := core.VerifC01Execute(st, blk, situationOf(sc))
-	return outcome{r, ev, rc, st}
+	r, ev, txs, rc := core.VerifC01Execute(st, blk, situationOf(sc))
+	return outcome{r, ev, rc, st, txs}
 }
 
 // fingerprint: everything the property names — root, receipts (consensus JSON and Msg), evicted list.
@@ -310,6 +314,64 @@ func decodeExtra(extra string) (kind string, ts []tgt) {
 
 func a20(a common.Address) string { return hex.EncodeToString(a[:]) }
 
+// observedBody: hash -> " o <ok> <evicted> <msghex> <k> (<addr> <bal> <nonce>)*" for the EVM transactions of the
+// block being emitted (filled by observeOpaque from prefix executions of the real executor)
+var observedBody = map[string]string{}
+
+func isEvmType(t int32) bool { return t == 200 || t == 188 }
+
+// observeOpaque runs the real executor on every prefix of the executed order that ends in an EVM
+// transaction (situation "testing": no after()) and records status, message and the watched
+// balances / nonces right after that transaction.
+func observeOpaque(sc *Scenario, wl []common.Address) {
+	observedBody = map[string]string{}
+	has := false
+	for _, x := range sc.Txs {
+		if isEvmType(x.Type) {
+			has = true
+		}
+	}
+	if !has {
+		return
+	}
+	root, t := buildParent(sc)
+	full := execOnce(sc, root, t)
+	byHash := map[string]TxS{}
+	for _, x := range sc.Txs {
+		byHash[x.Hash] = x
+	}
+	for k, tx := range full.txs {
+		if !isEvmType(tx.Type) {
+			continue
+		}
+		pre := *sc
+		pre.Situation = "testing"
+		pre.Txs = nil
+		for _, e := range full.txs[:k+1] {
+			pre.Txs = append(pre.Txs, byHash[hex.EncodeToString(e.Hash.Bytes())])
+		}
+		o := execOnce(&pre, root, t)
+		if len(o.receipts) == 0 {
+			continue
+		}
+		rc := o.receipts[len(o.receipts)-1]
+		ev := 0
+		for _, h := range o.evicted {
+			if h == tx.Hash {
+				ev = 1
+			}
+		}
+		// read the ledger from a fresh AccountDB: objects deleted by Finalise read as nil in the old one
+		fresh, _ := account.NewAccountDB(commit(o.st, t), t)
+		var sb strings.Builder
+		fmt.Fprintf(&sb, " o %d %d %s %d", rc.Status, ev, hx.Hex([]byte(rc.Msg)), len(wl))
+		for _, w := range wl {
+			fmt.Fprintf(&sb, " %s %s %d", a20(w), fresh.GetBalance(w).String(), fresh.GetNonce(w))
+		}
+		observedBody[hex.EncodeToString(tx.Hash.Bytes())] = sb.String()
+	}
+}
+
 func txTokens(r *hx.Rng, x TxS, watch map[common.Address]bool) string {
 	src := common.HexToAddress(x.Source)
 	fa := common.HexStringToAddress(x.Source)
@@ -317,6 +379,20 @@ func txTokens(r *hx.Rng, x TxS, watch map[common.Address]bool) string {
 	sn := new(big.Int).SetBytes(common.FromHex(x.Source))
 	var sb strings.Builder
 	fmt.Fprintf(&sb, " %s %d %d %d %s %s %s %s", x.Hash, x.Req, x.Nonce, x.Type, hx.Hex([]byte(x.Source)), a20(src), a20(fa), hx.Hex(sn.Bytes()))
+	if x.Type == types.TransactionTypeMinerRefund {
+		var d struct{ Amount, MinerId string }
+		if err := json.Unmarshal(utility.StrToBytes(x.Data), &d); err != nil {
+			return sb.String() + " j " + hx.Hex([]byte(x.Data))
+		}
+		amt := "x"
+		if v, err := strconv.ParseUint(d.Amount, 10, 64); err == nil {
+			amt = strconv.FormatUint(v, 10)
+		}
+		return sb.String() + " r " + amt + " " + hx.Hex(common.FromHex(d.MinerId))
+	}
+	if ob, ok := observedBody[x.Hash]; ok {
+		return sb.String() + ob
+	}
 	kind, ts := decodeExtra(x.Extra)
 	switch kind {
 	case "e":
@@ -366,8 +442,15 @@ func sortedEsc(m map[escKey]bool) []escKey {
 	return l
 }
 
-func dump(st *account.AccountDB, watch []common.Address, wesc []escKey) string {
-	var a, e []string
+func minerDB(t byte) common.Address {
+	if t == common.MinerTypeProposer {
+		return common.ProposerDBAddress
+	}
+	return common.ValidatorDBAddress
+}
+
+func dump(st *account.AccountDB, watch []common.Address, wesc []escKey, miners []MinerS) string {
+	var a, e, m []string
 	for _, w := range watch {
 		a = append(a, fmt.Sprintf("%s:%s:%d", a20(w), st.GetBalance(w).String(), st.GetNonce(w)))
 	}
@@ -375,81 +458,54 @@ func dump(st *account.AccountDB, watch []common.Address, wesc []escKey) string {
 		v := new(big.Int).SetBytes(st.GetData(escrowAddr(k.h), k.id.Bytes()))
 		e = append(e, fmt.Sprintf("%d:%s:%s", k.h, a20(k.id), v.String()))
 	}
-	return "st=" + strings.Join(a, ",") + " esc=" + strings.Join(e, ",")
+	// registry as stored: id key (alive), stake key, account key, status key (else the JSON status)
+	for _, mi := range miners {
+		db, id := minerDB(mi.Type), unhex(mi.Id)
+		k1 := common.Sha256(id)
+		k2 := common.Sha256(k1)
+		k3 := common.Sha256(k2)
+		alive := 0
+		if len(st.GetData(db, id)) > 0 {
+			alive = 1
+		}
+		stake := utility.ByteToUInt64(st.GetData(db, k1))
+		acct := "-"
+		if b := st.GetData(db, k2); len(b) > 0 {
+			acct = a20(common.BytesToAddress(b))
+		}
+		status := mi.Status
+		if b := st.GetData(db, k3); len(b) == 1 {
+			status = b[0]
+		}
+		m = append(m, fmt.Sprintf("%s:%d:%d:%s:%d:%d", hx.Hex(id), mi.Type, stake, acct, status, alive))
+	}
+	return "st=" + strings.Join(a, ",") + " esc=" + strings.Join(e, ",") + " mi=" + strings.Join(m, ",")
 }
 
-// rewardTokens recomputes the inputs of calculateRewardPerBlock's loops from the scenario's miner
-// table with the implementation's own float/big conversions (uninterpreted leaves of the model).
+// rewardTokens: what the model needs besides its own registry: getTotalReward(height) as a float64
+// bit pattern (math.Pow is the one float function the model does not compute), GetRewardBlocks,
+// castor id, group members.  All shares are computed by the model (Model/RewardFloat.lean).
 func rewardTokens(sc *Scenario, watch map[common.Address]bool, wesc map[escKey]bool) string {
-	if len(sc.Group) == 0 {
-		return " x"
-	}
-	height := sc.Height
-	total := service.GetTotalReward(height)
-	rp := utility.Float64ToBigInt(total * common.ProposerReward)
-	castor := common.Address{}
+	nh := service.RewardCalculatorImpl.NextRewardHeight(sc.Height)
 	for _, m := range sc.Miners {
-		if m.Type == common.MinerTypeProposer && sc.Castor != "" && m.Id == sc.Castor {
-			castor = common.BytesToAddress(unhex(m.Account))
-		}
-	}
-	other := total * common.AllProposerReward
-	var tot uint64
-	for _, m := range sc.Miners {
-		if m.Type == common.MinerTypeProposer && m.Status == common.MinerStatusNormal && height >= m.ApplyHeight {
-			tot += m.Stake
-		}
-	}
-	nh := service.RewardCalculatorImpl.NextRewardHeight(height)
-	var sb strings.Builder
-	var ps []string
-	for _, m := range sc.Miners {
-		if tot != 0 && m.Type == common.MinerTypeProposer && m.Status == common.MinerStatusNormal && height >= m.ApplyHeight {
-			d := utility.Float64ToBigInt(float64(m.Stake) / float64(tot) * other)
-			ac := common.BytesToAddress(unhex(m.Account))
-			ps = append(ps, a20(ac)+" "+d.String())
-			watch[ac] = true
-			wesc[escKey{nh, ac}] = true
-		}
-	}
-	watch[castor] = true
-	wesc[escKey{nh, castor}] = true
-	fmt.Fprintf(&sb, " %d %s %s %d", nh, a20(castor), rp.String(), len(ps))
-	for _, p := range ps {
-		sb.WriteString(" " + p)
-	}
-	// validators: GetValidatorsStake merges members by account
-	type vs struct {
-		a common.Address
-		s uint64
-	}
-	var order []common.Address
-	sum := map[common.Address]uint64{}
-	var vtot uint64
-	for _, id := range sc.Group {
-		for _, m := range sc.Miners {
-			if m.Type == common.MinerTypeValidator && m.Id == id && m.Stake != 0 {
-				ac := common.BytesToAddress(unhex(m.Account))
-				if _, ok := sum[ac]; !ok {
-					order = append(order, ac)
-				}
-				sum[ac] += m.Stake
-				vtot += m.Stake
-			}
-		}
-	}
-	if vtot == 0 {
-		order = nil
-	}
-	fmt.Fprintf(&sb, " %d", len(order))
-	rv := total * common.ValidatorsReward
-	for _, ac := range order {
-		d := utility.Float64ToBigInt(float64(sum[ac]) / float64(vtot) * rv)
-		fmt.Fprintf(&sb, " %s %s", a20(ac), d.String())
+		ac := common.BytesToAddress(unhex(m.Account))
 		watch[ac] = true
 		wesc[escKey{nh, ac}] = true
 	}
-	return sb.String()
+	wesc[escKey{nh, common.Address{}}] = true
+	castor := "-"
+	if sc.Castor != "" {
+		castor = sc.Castor
+	}
+	s := fmt.Sprintf(" F %d %d %s", math.Float64bits(service.GetTotalReward(sc.Height)), common.GetRewardBlocks(), castor)
+	if len(sc.Group) == 0 {
+		return s + " x"
+	}
+	s += fmt.Sprintf(" %d", len(sc.Group))
+	for _, id := range sc.Group {
+		s += " " + id
+	}
+	return s
 }
 
 // emitScenario: reset, parent state, watch lists, one block op answered by the real executor.
@@ -490,12 +546,32 @@ func emitScenario(out *hx.Out, r *hx.Rng, sc *Scenario) {
 		watch[id] = true
 		out.Emit(fmt.Sprintf("esc %d %s %s", e.H, a20(id), e.V), "ok")
 	}
+	for _, mi := range sc.Miners {
+		ac := common.BytesToAddress(unhex(mi.Account))
+		watch[ac] = true
+		out.Emit(fmt.Sprintf("miner %s %d %d %s 1 %d %d", mi.Id, mi.Type, mi.Stake, a20(ac), mi.Status, mi.ApplyHeight), "ok")
+	}
 	applyFlags(sc, sc.Height-1, false)
+	// first pass over the interpreted transactions fixes the watch list, then the EVM
+	// transactions are observed on it
+	observedBody = map[string]string{}
+	for _, x := range sc.Txs {
+		if !isEvmType(x.Type) {
+			txTokens(hx.NewRng(1), x, watch)
+		} else {
+			watch[common.HexToAddress(x.Source)] = true
+			watch[common.HexStringToAddress(x.Source)] = true
+			if x.Target != "" {
+				watch[common.HexToAddress(x.Target)] = true
+			}
+		}
+	}
+	rw := rewardTokens(sc, watch, wesc)
+	observeOpaque(sc, sortedAddrs(watch))
 	var txs strings.Builder
 	for _, x := range sc.Txs {
 		txs.WriteString(txTokens(r, x, watch))
 	}
-	rw := rewardTokens(sc, watch, wesc)
 	wl, el := sortedAddrs(watch), sortedEsc(wesc)
 	ws := "watch"
 	for _, w := range wl {
@@ -513,6 +589,10 @@ func emitScenario(out *hx.Out, r *hx.Rng, sc *Scenario) {
 	}
 	op := fmt.Sprintf("block %d %d %s %s %s%s %d%s", sc.Height, p4, sc.Flags, feeOf(sc).String(), a20(common.FeeAccount), rw, len(sc.Txs), txs.String())
 	root, t := buildParent(sc)
+	typeOf := map[common.Hash]int32{}
+	for _, x := range sc.Txs {
+		typeOf[common.BytesToHash(unhex(x.Hash))] = x.Type
+	}
 	out.Do(op, func() string {
 		o := execOnce(sc, root, t)
 		var ev, rc []string
@@ -520,7 +600,11 @@ func emitScenario(out *hx.Out, r *hx.Rng, sc *Scenario) {
 			ev = append(ev, hex.EncodeToString(h.Bytes()))
 		}
 		for _, x := range o.receipts {
-			rc = append(rc, fmt.Sprintf("%s:%d:%s", hex.EncodeToString(x.TxHash.Bytes()), x.Status, hx.Hex([]byte(x.Msg))))
+			msg := hx.Hex([]byte(x.Msg))
+			if typeOf[x.TxHash] == types.TransactionTypeMinerRefund {
+				msg = "-" // message text of miner transactions is not modelled
+			}
+			rc = append(rc, fmt.Sprintf("%s:%d:%s", hex.EncodeToString(x.TxHash.Bytes()), x.Status, msg))
 			rcStats[fmt.Sprintf("receipt status=%d %s", x.Status, msgClass(x.Msg))]++
 		}
 		nr := commit(o.st, t)
@@ -528,7 +612,7 @@ func emitScenario(out *hx.Out, r *hx.Rng, sc *Scenario) {
 			return "COMMIT-ROOT-DIFFERS"
 		}
 		fresh, _ := account.NewAccountDB(nr, t)
-		return "ev=" + strings.Join(ev, ",") + " rc=" + strings.Join(rc, ",") + " " + dump(fresh, wl, el)
+		return "ev=" + strings.Join(ev, ",") + " rc=" + strings.Join(rc, ",") + " " + dump(fresh, wl, el, sc.Miners)
 	})
 }
 
@@ -706,6 +790,13 @@ func genScenario(r *hx.Rng, i int, allowOpaque bool) *Scenario {
 			if allowOpaque {
 				x.Type = 200
 				x.Data = "{"
+				if r.Chance(2, 3) { // a real creation / call (self-destructing, storage writing, failing …)
+					x.Data = contractData(r, initLib(r), valueStr(r))
+					if r.Chance(1, 3) {
+						x.Target = "0x" + poolAddrs[r.Intn(len(poolAddrs))]
+						x.Data = contractData(r, "", valueStr(r))
+					}
+				}
 			}
 		}
 		switch r.Intn(6) {
@@ -823,6 +914,53 @@ func genScenario(r *hx.Rng, i int, allowOpaque bool) *Scenario {
 			sc.Castor = sc.Miners[r.Intn(np)].Id
 		} else if r.Bool() {
 			sc.Castor = "dd0000"
+		}
+		// miner refund transactions: partial / full / too much / unparsable amounts, foreign senders,
+		// unknown ids, several refunds falling on the same height (same and different accounts)
+		funded := map[string]bool{}
+		for _, a := range sc.Accounts {
+			funded[a.Addr] = true
+		}
+		for k := r.Pick(0, 0, 1, 2, 3, 4); k > 0 && len(sc.Miners) > 0 && len(sc.Txs) < 12; k-- {
+			m := sc.Miners[r.Intn(len(sc.Miners))]
+			src := m.Account
+			if r.Chance(1, 6) {
+				src = poolAddrs[r.Intn(len(poolAddrs))]
+			}
+			if !funded[src] && r.Chance(5, 6) {
+				funded[src] = true
+				sc.Accounts = append(sc.Accounts, Acct{src, e18(int64(1 + r.Intn(3))).String(), 0})
+			}
+			amt := ""
+			switch r.Intn(9) {
+			case 0:
+				amt = "18446744073709551615"
+			case 1:
+				amt = strconv.FormatUint(m.Stake, 10)
+			case 2:
+				amt = strconv.FormatUint(m.Stake+1, 10)
+			case 3:
+				amt = "abc"
+			case 4:
+				amt = "0"
+			case 5:
+				amt = strconv.FormatUint(m.Stake-399, 10)
+			default:
+				amt = strconv.Itoa(1 + r.Intn(500))
+			}
+			id := "0x" + m.Id
+			if r.Chance(1, 8) {
+				id = "0xdead00"
+			}
+			d, _ := json.Marshal(map[string]string{"Amount": amt, "MinerId": id})
+			x := TxS{Source: "0x" + src, Type: 4, Hash: randHash(r), Data: string(d)}
+			if r.Chance(1, 10) {
+				x.Data = "{bad"
+			}
+			if r.Chance(1, 4) {
+				x.Req = uint64(200 + k)
+			}
+			sc.Txs = append(sc.Txs, x)
 		}
 	}
 	return sc
@@ -1095,7 +1233,7 @@ func emitSiteOps(out *hx.Out, r *hx.Rng, i int) {
 				service.RefundManagerImpl.Add(data, st)
 				root = commit(st, t)
 				f, _ := account.NewAccountDB(root, t)
-				return dump(f, wl, el)
+				return dump(f, wl, el, nil)
 			})
 		case 2: // CheckAndMove
 			h := heights[r.Intn(len(heights))]
@@ -1103,7 +1241,7 @@ func emitSiteOps(out *hx.Out, r *hx.Rng, i int) {
 				service.RefundManagerImpl.CheckAndMove(h, st)
 				root = commit(st, t)
 				f, _ := account.NewAccountDB(root, t)
-				return dump(f, wl, el)
+				return dump(f, wl, el, nil)
 			})
 		default: // ChangeAssets directly (inside a snapshot, as the executor does)
 			src := poolAddrs[r.Intn(len(poolAddrs))]
@@ -1137,7 +1275,7 @@ func emitSiteOps(out *hx.Out, r *hx.Rng, i int) {
 				}
 				root = commit(st, t)
 				f, _ := account.NewAccountDB(root, t)
-				return o + hx.Hex([]byte(msg)) + " " + dump(f, wl, el)
+				return o + hx.Hex([]byte(msg)) + " " + dump(f, wl, el, nil)
 			})
 		}
 	}
